@@ -5,22 +5,32 @@ From Boltons Require Import Lib.Prelude Lib.C16_Text Spec.C16_Spec Model.C16_Mod
 Open Scope N_scope.
 
 (* ---- to_string --------------------------------------------------------------------------------- *)
-Lemma frames_to_lines_ok fs :
-  forallb (fun f => match f_func f with Some _ => true | None => false end) fs = true ->
-  frames_to_lines fs = Ok (flat_map entry_lines fs).
+Lemma ts_repeated_std count : ts_repeated count = flush_repeat count.
 Proof.
-  induction fs as [|f fs IH]; cbn [forallb]; intro H; [reflexivity|].
-  apply andb_true_iff in H as [Hf H]. cbn [frames_to_lines flat_map].
-  destruct f as [p n [g|] s]; [|discriminate]. cbn [f_func f_path f_lineno f_src].
-  rewrite (IH H). unfold entry_lines, frame_line, src_lines. cbn [f_func f_path f_lineno f_src func_of].
-  destruct (is_nil s); reflexivity.
+  unfold ts_repeated, flush_repeat. rewrite (N.leb_antisym 3 count). destruct (3 <? count); reflexivity.
 Qed.
 
-Theorem to_string_plain (T : tb) :
-  forallb (fun f => match f_func f with Some _ => true | None => false end) (t_frames T) = true ->
-  to_string T = Ok (plain_text T).
+Lemma ts_fold_std fs : forall last count, ts_fold last count fs = fold_entries last count fs.
 Proof.
-  intro H. unfold to_string. rewrite (frames_to_lines_ok _ H). reflexivity.
+  induction fs as [|f fs IH]; intros last count; cbn [ts_fold fold_entries].
+  - apply ts_repeated_std.
+  - change fr_same with same_place.
+    destruct (match last with Some l => same_place l f | None => false end).
+    + rewrite (N.leb_antisym 3 (count + 1)). destruct (3 <? count + 1); cbn [negb app]; rewrite IH; reflexivity.
+    + rewrite ts_repeated_std, IH. reflexivity.
+Qed.
+
+Definition has_funcs (fs : list frame) : bool :=
+  forallb (fun f => match f_func f with Some _ => true | None => false end) fs.
+
+(* to_string prints the interpreter's rendering (identical consecutive entries folded) *)
+Theorem to_string_std (T : tb) : has_funcs (t_frames T) = true -> to_string T = Ok (std_text T).
+Proof.
+  intro H.
+  assert (E : forallb (fun f => is_some (f_func f)) (t_frames T) = true).
+  { unfold has_funcs in H. rewrite forallb_forall in *. intros f Hf. specialize (H f Hf).
+    destruct (f_func f); [reflexivity|discriminate]. }
+  unfold to_string. rewrite E, ts_fold_std. reflexivity.
 Qed.
 
 (* ---- folding -------------------------------------------------------------------------------------- *)
@@ -43,7 +53,11 @@ Proof.
   rewrite (fold_entries_plain _ None 0 H) by lia. reflexivity.
 Qed.
 
-(* a recursion of depth 4 is folded, and the folded text is not read back *)
+Theorem to_string_plain (T : tb) :
+  has_funcs (t_frames T) = true -> long_repeat (t_frames T) = false -> to_string T = Ok (plain_text T).
+Proof. intros H Hr. rewrite (to_string_std T H), (std_text_plain T Hr). reflexivity. Qed.
+
+(* a recursion of depth 5 *)
 Definition rec_frame : frame := mkFrame [114;46;112;121] [55] (Some [102]) [102;40;41].   (* r.py 7 f f() *)
 Definition rec_tb : tb := mkTb (repeat rec_frame 5) [69] [].
 
